@@ -14,6 +14,7 @@ func init() {
 	vfRegister("VfC16_mirror_t", VfC16_mirror_t)
 	vfRegister("VfC16_flush", VfC16_flush)
 	vfRegister("VfC16_resolved", VfC16_resolved)
+	vfRegister("VfC16_resolvedCascade", VfC16_resolvedCascade)
 }
 
 // vfMirror folds post-change notifications: ADD carries the new entry, DELETE the removed one.
@@ -225,6 +226,60 @@ func vfSnapshotHas(n vfResolvedNote) bool {
 		}
 	}
 	return false
+}
+
+// VfC16_resolvedCascade: the resolved-entry hook for an entry that was HELD and is installed by a cascade: an
+// IPv4 entry in either instance waits for a group of the default instance (implicit or explicit reference); the
+// group's ADD (an operation in the DEFAULT instance) resolves it: the notification names the ENTRY's instance and
+// its snapshot of that instance contains the entry.
+func VfC16_resolvedCascade() {
+	r, ref := vfNewPair(true)
+	notes := make(chan vfResolvedNote, 16)
+	r.SetResolvedEntryHook(func(ribs map[string]*aft.RIB, op constants.OpType, ni string, kind constants.AFT, key any, dets ...ResolvedDetails) {
+		notes <- vfResolvedNote{ribs: ribs, op: op, ni: ni, kind: kind, key: key}
+	})
+	g := &vfGen{}
+	nh := &vfOpD{id: g.id(), typ: vfADD, kind: vfKNH, ni: "DEFAULT", idx: vfU64("nh"), hasBody: true}
+	vfAssume(vfSubmit(r, ref, nh) == vfStAcked)
+	ent := &vfOpD{id: g.id(), typ: vfADD, kind: vfKV4, ni: vfKnownNI("ent"), pfx: vfStrK("pfx", "prefix4"), hasBody: true, hasNHG: true, nhg: vfU64("nhg")}
+	if ent.ni != "DEFAULT" || vfBool("explicit-instance") {
+		ent.hasNHGNI, ent.nhgNI = true, "DEFAULT"
+	}
+	vfAssume(vfSubmit(r, ref, ent) == vfStHeld)
+	grp := &vfOpD{id: g.id(), typ: vfADD, kind: vfKNHG, ni: "DEFAULT", idx: ent.nhg, hasBody: true, members: []vfMember{{idx: nh.idx}}}
+	vfAssume(vfSubmit(r, ref, grp) == vfStAcked)
+	vfAssert(len(ref.held) == 0, "C16:cascade-resolved-the-held-entry")
+	var got *vfResolvedNote
+	for {
+		var n vfResolvedNote
+		more := true
+		select {
+		case n = <-notes:
+		default:
+			if vfEngine() {
+				if vfQuiesce(); len(notes) > 0 {
+					continue
+				}
+			} else if got == nil {
+				n = <-notes // natively the hook runs in its own goroutine: wait for the first note
+				break
+			}
+			more = false
+		}
+		if !more {
+			break
+		}
+		if n.kind == constants.IPv4 {
+			c := n
+			got = &c
+		}
+	}
+	vfAssert(got != nil, "C16:resolved-hook-announces-entry-installed-by-cascade")
+	if got != nil {
+		vfAssert(got.op == constants.Add && got.ni == ent.ni, "C16:resolved-hook-names-the-entrys-own-instance")
+		vfAssert(vfSnapshotHas(*got), "C16:snapshot-contains-added-entry")
+	}
+	vfReach("end")
 }
 
 // VfC16_resolved: the resolved-entry hook receives a private snapshot that contains the
